@@ -36,7 +36,7 @@ def main():
         for i in ids:
             r = subprocess.run([os.path.join(here, "check"), i] + (["--tier", os.environ["TIER"]] if os.environ.get("TIER") else []),
                                env=env, capture_output=True, text=True)
-            lines = [l for l in r.stdout.splitlines() if l.startswith(("VIOLATION", "ANALYSIS-ERROR", "  ", "KNOWN", "STALE")) and "rule " not in l[:8]]
+            lines = [l for l in r.stdout.splitlines() if l.startswith(("VIOLATION", "ANALYSIS-ERROR", "  ", "STALE")) and "rule " not in l[:8]]
             print("%s rc=%d" % (i, r.returncode)); print("\n".join(lines[:12]))
             if r.stderr.strip(): print(r.stderr[-1500:])
             rc = max(rc, r.returncode)
